@@ -314,6 +314,8 @@ def h_prio_path(params, model=None):
                     st.update(side, S.FILE, "o1", path=cur, hash=b"h", exists=True)      # rename event
                 else:
                     ent[side].path = cur                                                      # path refreshed from the provider (get_latest)
+                if (side, cur) not in prios:
+                    return {"ok": False, "info": {"why": "the prioritise function was not consulted for the entry's new path", "moves": k + 1}}
                 if not e.holds(ent.priority == prios[(side, cur)], "prio-follows-path"):
                     return {"ok": False, "info": {"why": "entry keeps a priority assigned to a path it no longer has", "moves": k + 1}}
             age = e.real("age")
